@@ -35,7 +35,16 @@ def input_programs():
         "10 LINE INPUT A$", '10 LINE INPUT "P" ; A$', '10 LINE INPUT "" ; A$', "10 LINE INPUT R$ ( 1 )",
         "10 INPUT A : PRINT A", "10 INPUT A$ : B$ = A$ + A$", '10 IF Z = 1 THEN INPUT "P" ; A ELSE LINE INPUT "Q" ; A$',
         '10 IF Z = 1 THEN PRINT "X" ELSE IF Z = 2 THEN PRINT "Y" ELSE INPUT "R" ; A',
-    ]
+    ] + [f'10 {kw} "{p}" ; A$' for kw in ("INPUT", "LINE INPUT") for p in prompts()]
+
+
+def prompts():
+    """every prompt text of up to two characters over { letter, question mark, blank, colon } (what the prompt ends with
+    must not change what INPUT appends to it)"""
+    import itertools
+
+    alpha = ("P", "?", " ", ":")
+    return [a + b for a in alpha for b in alpha] + ["?", ":", " ", "READY?", "WHY ? "]
 
 
 DATA_ITEMS = {"int": "1", "real": "2.5", "neg": "- 3", "exp": "1E3", "hex": "&HFF", "quoted": '"Q S"', "unquoted": "UN Q", "empty": ""}
@@ -107,7 +116,10 @@ def array_programs():
         ("arr:num-vs-str", '10 Q ( 1 ) = 8 : Q$ ( 1 ) = "X" : Z = Q ( 1 ) : Z$ = Q$ ( 1 )'),
         ("arr:expr-subscript", "10 DIM Q ( 9 ) : Q ( I + 1 ) = V : Z = Q ( 2 * J )"),
         ("arr:hex-dim", "10 DIM Q ( &H10 ) : Q ( I ) = V : Z = Q ( J )"),
-    ]
+    ] + [(f"arr:element-gets-{fn.split(' ')[0]}{'-let' if let else ''}{'-dim' if dim else ''}", f"10 {dim}{let}{tgt} = {fn} : Z{'$' if '$' in tgt else ''} = {tgt}")
+         for tgt, fn in (("Q ( 2 )", "VAL ( A$ )"), ("Q ( I )", "INT ( V )"), ("Q ( I )", "INSTR ( 1 , A$ , B$ )"), ("R$ ( 1 )", "STR$ ( V )"), ("R$ ( I )", "STRING$ ( 3 , A$ )"),
+                         ("R$ ( I )", "HEX$ ( V )"), ("Q ( I , J )", "VAL ( A$ )"), ("Q ( I )", "LEN ( A$ )"), ("R$ ( I )", "LEFT$ ( A$ , 2 )"), ("Q ( I )", "VAL ( A$ ) + 1"))
+         for let in ("", "LET ") for dim in ("", "DIM Q ( 5 , 5 ) , R$ ( 5 ) : " if "," in tgt else "DIM Q ( 5 ) , R$ ( 5 ) : ")]
 
 
 def string_function_programs():
